@@ -64,3 +64,33 @@ Proof.
   intros. split; [apply gen_process_simulated_data_is_model|apply gen_panel_index_is_model].
 Qed.
 Print Assumptions C13_code_panel_construction_is_the_model.
+
+(* ---- the additional targets (Gen/ComputeTargets.v, regenerated from lcm.simulate._compute_targets) ---------------- *)
+From LCM Require Import Base.Arr Model.Dispatchers Gen.ComputeTargets Proofs.C13_Targets.
+(* one column per requested target, in the order of the request; entry j of the column of target tn is the target      *)
+(* function evaluated at the values row j has in the columns of the target function's variables (never at a mix of     *)
+(* rows), and the column has as many entries as the panel has rows                                                     *)
+Theorem C13_code_target_columns_are_row_evaluations :
+  forall (signature : list string) (target_at : string -> list qarr -> qarr),
+  (forall tn a, wf (target_at tn a) /\ shape (target_at tn a) = []) ->
+  NoDup (ct_variables signature) -> ct_variables signature <> [] ->
+  forall (processed : list (string * qarr)) (cols : list (list Q)) (n : nat),
+  map (lookup processed) (ct_variables signature) = map (fun c => vec c) cols ->
+  Forall (fun c : list Q => length c = n) cols ->
+  forall targets,
+  map fst (compute_targets signature target_at targets processed) = targets /\
+  forall tn col, In (tn, col) (compute_targets signature target_at targets processed) ->
+    shape col = [n] /\
+    forall j, j < n -> qget col [j] = qget (target_at tn (map (fun c : list Q => scalar (nth j c 0%Q)) cols)) [].
+Proof. exact target_columns_are_row_evaluations. Qed.
+Print Assumptions C13_code_target_columns_are_row_evaluations.
+
+Example C13_targets_nonvacuous :
+  let target_at := fun (tn : string) (a : list qarr) =>
+        if String.eqb tn "sum" then scalar (qget (nth 0 a dflt_arr) [] + qget (nth 1 a dflt_arr) [])%Q
+        else scalar (qget (nth 0 a dflt_arr) [] * qget (nth 1 a dflt_arr) [])%Q in
+  let processed := [("value", vec [0%Q; 0%Q; 0%Q]); ("w", vec [1%Q; 2%Q; 3%Q]); ("c", vec [10%Q; 20%Q; 30%Q])] in
+  map (fun kv => (fst kv, map Qred (data (snd kv))))
+      (compute_targets ["c"; "w"; "params"] target_at ["sum"; "prod"] processed)
+  = [("sum", [11%Q; 22%Q; 33%Q]); ("prod", [10%Q; 40%Q; 90%Q])].
+Proof. vm_compute. reflexivity. Qed.
